@@ -90,6 +90,8 @@ class Contract(object):
         self.native_accepts = d.get("native_accepts")   # spec fn(args...) -> bool: run-time twin of `accepts`
         self.when_blocked = d.get("when_blocked")       # spec fn(args..., old): what must hold when the call waits for
         #                                                 another thread (Blocked outcome of the one-thread models)
+        self.native_real = d.get("native_real", False)   # an assumed summary whose REAL callee may run in sampled replays
+        self.sample_budget = d.get("samples")     # typed cases sampled for the bounded companion (None = default, 0 = none)
         self.native_effect = d.get("native_effect")     # spec fn(args...) run by the native stub of an assumed summary
         self.log_entry = d.get("log_entry")       # spec fn(args...) -> tuple: appended to the ghost event log at
         #                                            every call of the target (pre-state), see spec.event_log()
